@@ -114,8 +114,12 @@ pub enum Ret {
     ReloadFailed(String),
 }
 
+/// trader id given to the n-th order: TRADER_BASE + n (base 100; base 0 makes trader ids
+/// coincide with order ids; a base just below 2^32 makes them huge)
+pub static TRADER_BASE: std::sync::atomic::AtomicU32 = std::sync::atomic::AtomicU32::new(100);
+
 pub fn trader_for(n_orders: usize) -> u32 {
-    100 + n_orders as u32
+    TRADER_BASE.load(std::sync::atomic::Ordering::Relaxed).wrapping_add(n_orders as u32)
 }
 
 pub fn scratch_path() -> std::path::PathBuf {
@@ -353,6 +357,8 @@ pub struct Profile {
     pub set_time_dt: u64,
     /// cancel / modify / place are offered for the most recent ids only (histories with hundreds of orders)
     pub id_window: usize,
+    /// trader id of the n-th order = trader_base + n
+    pub trader_base: u32,
 }
 
 impl Profile {
@@ -382,7 +388,18 @@ impl Profile {
             magnitude: false,
             set_time_dt: 2,
             id_window: usize::MAX,
+            trader_base: 100,
         }
+    }
+
+    /// values that coincide with one another: prices 1,2,3 = volumes 1,2,3 = small ids = trader ids, clock starting at 1
+    pub fn coincidences(name: &str) -> Profile {
+        let mut p = Profile::core(name, 1, 1);
+        p.limit_vols = vec![1, 2, 3];
+        p.market_vols = vec![1, 3];
+        p.trader_base = 0;
+        p.start_time = 1;
+        p
     }
 
     /// large numbers: times beyond 2^32, prices around 2^31, volumes beyond 2^16 and 2^31
@@ -396,6 +413,7 @@ impl Profile {
         p.magnitude = true;
         p.reset_tv = true;
         p.set_time_dt = 1 << 33;
+        p.trader_base = u32::MAX - 1000;
         p
     }
 
